@@ -10,7 +10,10 @@ use a2lfile::*;
 use serde_json::{json, Map, Value};
 
 const SPEC_KINDS: [&str; 3] = ["COMPU_METHOD", "MEASUREMENT", "UNIT"];
-const TRIPLES: [[usize; 3]; 7] = [[0, 1, 2], [3, 4, 5], [6, 7, 8], [9, 10, 11], [12, 13, 14], [15, 16, 17], [17, 18, 19]];
+// triples of real list kinds that preserve both orders of the specification's three kinds:
+// alphabetical tag order a < b < c (writer tie-break) and sort()'s emission order b, a, c
+const TRIPLES: [[usize; 3]; 9] =
+    [[3, 11, 19], [0, 2, 19], [1, 10, 12], [4, 11, 13], [7, 18, 19], [8, 14, 19], [9, 15, 19], [5, 10, 16], [6, 11, 17]];
 
 fn real_kind(spec_kind: &str, triple: usize) -> &'static str {
     let i = SPEC_KINDS.iter().position(|k| *k == spec_kind).expect("spec kind");
@@ -94,6 +97,7 @@ fn replay_one(case: &Value, triple: usize, observed: &mut Map<String, Value>) ->
     };
     observed.insert("before".into(), written_json(&mut a2l, &kinds, triple));
     check_state(&mut a2l, from, &e_from, "before")?;
+    let snapshot = a2l.clone();
     let op = &case["op"];
     let opname = op["op"].as_str().unwrap();
     let res = guarded(|| {
@@ -106,6 +110,7 @@ fn replay_one(case: &Value, triple: usize, observed: &mut Map<String, Value>) ->
                 set_last_layout(module, rk, 0, op["line"].as_u64().unwrap() as u32);
             }
             "sort_new_items" => a2l.sort_new_items(),
+            "sort" => a2l.sort(),
             other => panic!("unknown op {other}"),
         }
     });
@@ -124,8 +129,93 @@ fn replay_one(case: &Value, triple: usize, observed: &mut Map<String, Value>) ->
         }
     }
     observed.insert("after".into(), written_json(&mut a2l, &kinds, triple));
+    if opname == "sort" {
+        if let Err(why) = sort_relations(&snapshot, &mut a2l) {
+            observed.insert("relation".into(), json!(why.clone()));
+            return Err(format!("C14 relation: {why}"));
+        }
+    }
     check_state(&mut a2l, &case["to"], &e_to, "after")?;
     Ok(true)
+}
+
+/// the relations C14 states, evaluated directly on the real objects (no prediction involved)
+pub fn sort_relations(before: &A2lFile, after: &mut A2lFile) -> Result<(), String> {
+    // same elements with unchanged content in every list: sorting a copy of the original lists
+    // by name through the ItemList API must give a model equal (==) to the sorted one
+    let mut b = before.clone();
+    b.project.module.sort_by(|x, y| x.get_name().cmp(y.get_name()));
+    for (mi, mb) in b.project.module.iter_mut().enumerate() {
+        for k in LIST_KINDS {
+            let names: Vec<String> = observe_list(mb, k).into_iter().map(|c| c.name).collect();
+            if mi < after.project.module.len() {
+                per_kind_inner(k, names, &mut after.project.module[mi])?;
+            }
+            per_kind!(k, mb, |l| l.sort_by(|x, y| x.get_name().cmp(y.get_name())));
+        }
+        mb.user_rights.sort_by(|x, y| x.user_level_id.cmp(&y.user_level_id));
+    }
+    if b != *after {
+        return Err("content changed: the sorted model is not equal (==) to the original with its lists sorted by name".into());
+    }
+    let text1 = after.write_to_string();
+    // grouped by kind, ascending names inside a kind
+    let w = written_children(&text1);
+    let elems: Vec<&(String, String)> = w.iter().filter(|(k, _)| k != "#").collect();
+    let mut seen: Vec<&str> = vec![];
+    for i in 0..elems.len() {
+        let k = elems[i].0.as_str();
+        if i > 0 && elems[i - 1].0 == k {
+            if k != "IF_DATA" && elems[i - 1].1.as_bytes() > elems[i].1.as_bytes() {
+                return Err(format!("written file: {k} {} before {}", elems[i - 1].1, elems[i].1));
+            }
+        } else {
+            if seen.contains(&k) {
+                return Err(format!("written file: elements of kind {k} are not contiguous"));
+            }
+            seen.push(k);
+        }
+    }
+    // reload: equal model, same order
+    match a2lfile::load_from_string(&text1, None, false) {
+        Ok((mut re, _)) => {
+            if re != *after {
+                return Err("reloaded model differs from the sorted model".into());
+            }
+            if written_children(&re.write_to_string()) != w {
+                return Err("reloaded model is written in a different order".into());
+            }
+            re.sort();
+            if re.write_to_string() != text1 {
+                return Err("sorting the reloaded model changes the text".into());
+            }
+        }
+        Err(e) => return Err(format!("written text of the sorted model does not load: {e}")),
+    }
+    // idempotent
+    let mut twice = after.clone();
+    twice.sort();
+    if twice.write_to_string() != text1 {
+        return Err("sorting a second time changes the written text".into());
+    }
+    Ok(())
+}
+
+fn per_kind_inner(k: &str, names_before: Vec<String>, ma: &mut Module) -> Result<(), String> {
+    let mut nb = names_before;
+    let mut na: Vec<String> = observe_list(ma, k).into_iter().map(|c| c.name).collect();
+    let sorted_after = na.clone();
+    nb.sort();
+    na.sort();
+    if nb != na {
+        return Err(format!("list {k} holds different elements after sort(): {nb:?} vs {na:?}"));
+    }
+    let mut expect = sorted_after.clone();
+    expect.sort_by(|a, b| a.as_bytes().cmp(b.as_bytes()));
+    if expect != sorted_after {
+        return Err(format!("list {k} is not in ascending name order after sort(): {sorted_after:?}"));
+    }
+    Ok(())
 }
 
 pub fn replay(args: &Args) {
@@ -190,6 +280,7 @@ fn obs_event(rec: &mut Rec, mut ev: Map<String, Value>) -> Value {
         Value::Array(
             written
                 .iter()
+                .filter(|(k, _)| k == "#" || LIST_KINDS.contains(&k.as_str()))
                 .map(|(k, n)| {
                     if k == "#" {
                         let idx: u64 = n.trim_start_matches("/* c").trim_end_matches(" */").parse().unwrap_or(0);
@@ -204,7 +295,7 @@ fn obs_event(rec: &mut Rec, mut ev: Map<String, Value>) -> Value {
     Value::Object(ev)
 }
 
-fn record_one(rng: &mut Rng, case: u64, steps: usize, init: usize, out: &mut Out) -> u64 {
+fn record_one(rng: &mut Rng, case: u64, steps: usize, init: usize, extras: bool, sort_prob: u64, out: &mut Out) -> u64 {
     // choose 3..5 list kinds
     let nk = 3 + rng.below(3);
     let mut pool: Vec<&'static str> = LIST_KINDS.to_vec();
@@ -217,8 +308,24 @@ fn record_one(rng: &mut Rng, case: u64, steps: usize, init: usize, out: &mut Out
     let mut next_rank = 1u64;
     let mut ncomments = 0u64;
     let mut children = vec![];
+    let mut nifdata = 0u64;
+    let mut singles: Vec<&str> = vec!["MOD_COMMON", "MOD_PAR", "VARIANT_CODING"];
     for _ in 0..init {
-        if rng.chance(1, 6) {
+        if extras && rng.chance(1, 8) {
+            match rng.below(3) {
+                0 if !singles.is_empty() => {
+                    let i = rng.below(singles.len());
+                    children.push((singles.swap_remove(i).to_string(), String::new()));
+                }
+                1 => {
+                    nifdata += 1;
+                    children.push(("IF_DATA".to_string(), format!("V{nifdata}")));
+                }
+                _ => {
+                    children.push(("USER_RIGHTS".to_string(), format!("user{}", children.len())));
+                }
+            }
+        } else if rng.chance(1, 6) {
             ncomments += 1;
             children.push(("#".to_string(), format!("/* c{ncomments} */")));
         } else {
@@ -239,7 +346,20 @@ fn record_one(rng: &mut Rng, case: u64, steps: usize, init: usize, out: &mut Out
     events += 1;
     for _ in 0..steps {
         let mut ev = Map::new();
-        match rng.below(10) {
+        let dice = if rng.chance(sort_prob, 100) { 10 } else { rng.below(10) };
+        match dice {
+            10 => {
+                let before = rec.a2l.clone();
+                let r = guarded(|| rec.a2l.sort());
+                ev.insert("ev".into(), json!("sort"));
+                ev.insert("nifdata".into(), json!(nifdata));
+                ev.insert("panic".into(), json!(r.is_err()));
+                if r.is_ok() {
+                    if let Err(why) = sort_relations(&before, &mut rec.a2l) {
+                        ev.insert("relation_violated".into(), json!(why));
+                    }
+                }
+            }
             0..=3 => {
                 let k = *rng.pick(&rec.kinds);
                 let r = rec.next_rank;
@@ -334,11 +454,13 @@ pub fn record(args: &Args) {
     let steps = args.num("steps", 60) as usize;
     let init = args.num("init", 8) as usize;
     let repeat = args.num("repeat", 0) as usize;
+    let extras = args.num("extras", 0) != 0;
+    let sort_prob = args.num("sortprob", 0);
     let mut out = Out::file(args.req("out"));
     let mut rng = Rng::new(seed);
     let mut events = 0;
     for t in 0..traces {
-        events += record_one(&mut rng, t, steps, if t % 4 == 3 { init * 6 } else { init }, &mut out);
+        events += record_one(&mut rng, t, steps, if t % 4 == 3 { init * 6 } else { init }, extras, sort_prob, &mut out);
     }
     let mut ntr = traces;
     if repeat > 0 {
